@@ -1,5 +1,8 @@
 """C20 — GPU field arithmetic (gl64_t) and device tables implement the same field as the CPU.
 No GPU, no nvcc: what is bound is the TEXT of /repo/src/gl64_t.cuh and ntt_goldilocks.cuh (current tree).
+ (0) trusted base: spec/Ptx.tla (integer subset of PTX, width-parametric) is unit-tested operator by operator against its
+     arithmetic definition by TLC (MC_Ptx, Phi = 4, 8; thorough: 16); tools/ptx_prims.hpp (the same table in C++) tests
+     itself against __int128 arithmetic when the driver starts.  A failure of either is exit 2, never a verdict.
  (a) model: tools/ptx2tla.py derives Gl64_gen.tla (+ a C++ PTX executor) from the inline PTX, both __CUDA_ARCH__
      variants; TLC exhaustive at w in {3,4} (thorough: 5), Apalache at w = 32 (linear members, reduce(temp[4]) for all
      four-register inputs, mul(uint32)/mul with free partial products); counterexamples become replay cases
@@ -37,11 +40,32 @@ def leads_of(a, b):
     return out
 
 
+class Infra(Exception):
+    """the machinery contradicts itself: exit 2 (./check prints the traceback), never a VIOLATION."""
+
+
+# ------------------------------------------------------------------------------------------------ trusted base
+def ptx_unit_tests(ck, wd, tier):
+    """every operator of spec/Ptx.tla against its arithmetic definition (MC_Ptx), exhaustively at small widths."""
+    def one(phi):
+        cfg = 'MC_Ptx_%d.cfg' % phi
+        open(os.path.join(wd, cfg), 'w').write(open(os.path.join(wd, 'MC_Ptx.cfg')).read().replace('Phi = 8', 'Phi = %d' % phi))
+        return phi, tlc(wd, 'MC_Ptx', cfg, workers=4, timeout=900, tag='ptx%d' % phi)
+    with ThreadPoolExecutor(max_workers=3) as ex:
+        for phi, r in ex.map(one, [4, 8] if tier == 'quick' else [4, 8, 16]):
+            ck.add_tlc(r, 'MC_Ptx Phi=%d (11 invariants: every Ptx.tla operator against its arithmetic definition)' % phi)
+            if not r.ok:
+                raise Infra('spec/Ptx.tla fails its unit tests at Phi=%d: %s\n%s' %
+                            (phi, r.violated or r.error or 'rc=%s' % r.rc, r.out[-1500:]))
+
+
 # ------------------------------------------------------------------------------------------------ model
-def tlc_models(ck, wd, tier):
+def tlc_models(ck, wd, tier, info):
     leads = []
     for W in ([3, 4] if tier == 'quick' else [3, 4, 5]):
         cfg_text = open(os.path.join(wd, 'MC_Gl64.cfg')).read().replace('Phi = 16', 'Phi = %d' % (1 << W))
+        if not (info['free_ok']['MulFree'] and info['free_ok']['MulWFree']):
+            cfg_text = cfg_text.replace('INVARIANT InvFree\n', '')
         for attempt in range(4):            # after a violated invariant, drop it and look for the next one
             cfg = 'MC_Gl64_W%d_%d.cfg' % (W, attempt)
             open(os.path.join(wd, cfg), 'w').write(cfg_text)
@@ -65,7 +89,8 @@ def apa_models(ck, wd, tier, info):
     names = ([] if tier == 'quick' else ['MulRaw', 'MulW']) + ['MulWRaw', 'Red4x', 'Add', 'Sub', 'Cneg', 'Red']   # slowest first
     gen_name = dict(Red4x='Red4', MulWRaw='MulWRawFree', MulW='MulWFree', MulRaw='MulRawFree')
     invs = ['Inv%s%d' % (n, arch) for n in names for arch in ARCHS
-            if arch == ARCHS[0] or not info['same'].get(gen_name.get(n, n))]
+            if (arch == ARCHS[0] or not info['same'].get(gen_name.get(n, n))) and info['free_ok'].get(gen_name.get(n, n), True)]
+    invs.append('InvPtxW')
     to = 130 if tier == 'quick' else 560
     with ThreadPoolExecutor(max_workers=8) as ex:
         return list(zip(invs, ex.map(lambda inv: apalache(wd, 'Apa_Gl64', inv, timeout=to), invs)))
@@ -177,9 +202,14 @@ def replay_phase(ck, wd, exe, cases, label, tag):
     cpath = os.path.join(wd, 'cases_%s.txt' % tag); tpath = os.path.join(wd, 'trace_%s.ndjson' % tag)
     write_cases(cpath, cases)
     r = sh([exe, cpath, tpath], timeout=600)
+    if r.returncode != 0 and 'self-test' in r.stderr:
+        raise Infra('tools/ptx_prims.hpp contradicts its __int128 definitions: ' + r.stderr[-400:])
     if r.returncode != 0:
         ck.note('infrastructure: PTX executor driver ended with rc=%d: %s' % (r.returncode, r.stderr[-200:]))
         return
+    m = re.search(r'self-test passed \((\d+) comparisons\)', r.stderr)
+    if m:
+        ck.cov['prims_selftest_comparisons'] = int(m.group(1))
     v = validate_trace(wd, 'Trace_Gpu', 'Trace_Gpu.cfg', tpath, max_rejects=6)
     ck.add_validation(v, label)
     ck.sample_trace(tpath)
@@ -211,7 +241,9 @@ def run(tier, seed, replay=None):
     import ptx2tla
     ck = Check('C20', tier, seed)
     wd = workdir('C20')
-    ck.assumptions += ['no GPU execution: the PTX subset semantics of spec/Ptx.tla / tools/ptx_prims.hpp is the trusted base',
+    ck.assumptions += ['no GPU execution: the PTX subset semantics of spec/Ptx.tla / tools/ptx_prims.hpp is the trusted base '
+                       '(unit-tested against arithmetic definitions: MC_Ptx by TLC at small widths, ptx_prims.hpp against __int128)',
+                       'every asm operand is its own register (nvcc allocates one virtual PTX register per operand; "&" changes nothing)',
                        'PTX mul/mad are trusted primitives: at w=32 their products are universally quantified symbols; that the '
                        'symbols recombine to a*b is checked exhaustively at w<=5 (MC_Gl64!InvFree)',
                        'fully reduced configuration (GL64_PARTIALLY_REDUCED, GL64_NO_REDUCTION_KLUDGE undefined); host preprocessor',
@@ -229,6 +261,12 @@ def run(tier, seed, replay=None):
             tables_phase(ck, wd)
         return ck.finish()
     ck.cov['model_derived'] = True
+    ck.cov['ptx_operators_used'] = info['prims']
+    ck.cov['header_constants'] = info['consts']
+    for k in ('MulFree', 'MulWFree'):
+        if not info['free_ok'][k]:
+            ck.note('the 32x32 products of %s are not the ones the hand-written full-width invariants name; the free-product '
+                    'obligations are left out (the products stay covered by TLC at small widths and by the replay)' % k[:-4])
     ck.cov['generated_ssa_instructions'] = info['insns']
     ck.cov['arch_independent_text'] = sorted(k for k, v in info['same'].items() if v)
     exe = build_driver('drv_ptx', extra=['-I' + gendir], libs=(), with_lib=False, omp=False)
@@ -237,7 +275,8 @@ def run(tier, seed, replay=None):
         return ck.finish()
     with ThreadPoolExecutor(max_workers=1) as bg:
         fut = bg.submit(apa_models, ck, wd, tier, info)          # Apalache runs while TLC, tables and replay proceed
-        leads = tlc_models(ck, wd, tier)
+        ptx_unit_tests(ck, wd, tier)
+        leads = tlc_models(ck, wd, tier, info)
         tables_phase(ck, wd)
         cases = leads + gen_cases(seed, tier, info)
         replay_phase(ck, wd, exe, cases, 'PTX executor runs (%d cases incl. %d model leads)' % (len(cases), len(leads)), 'main')
